@@ -390,10 +390,14 @@ func runB(c CaseB) vt.Verdict {
 	}
 	sel := rebalancing.NewConfigSelector(opts...)
 	var sr *rebalancing.SmartRebalancer
+	var clkR *fakeClock
 	if c.ViaSmart && c.Scripted {
 		det := rebalancing.NewWorkloadDetector()
 		defer det.Close()
-		sr = rebalancing.NewSmartRebalancer(&nullIndex{}, rebalancing.WithSelector(sel), rebalancing.WithDetector(det), rebalancing.WithRebalancerClock(clk))
+		// the rebalancer keeps time of its own (a clock that leaps an hour per step): the selector's gates follow the clock
+		// the selector was built with
+		clkR = &fakeClock{t: time.Unix(1_900_000_000, 0)}
+		sr = rebalancing.NewSmartRebalancer(&nullIndex{}, rebalancing.WithSelector(sel), rebalancing.WithDetector(det), rebalancing.WithRebalancerClock(clkR))
 	}
 	// invariant state: time of the last change of the returned mode among gate-passing decisions
 	haveMode := false
@@ -402,6 +406,9 @@ func runB(c CaseB) vt.Verdict {
 	suppressed := 0
 	for i, s := range c.Steps {
 		clk.t = clk.t.Add(time.Duration(s.AdvanceMS) * time.Millisecond)
+		if clkR != nil {
+			clkR.t = clkR.t.Add(time.Hour)
+		}
 		var feat rebalancing.WorkloadFeatures
 		wt := rebalancing.WorkloadType(s.WType)
 		if c.Scripted {
@@ -480,6 +487,8 @@ func runB(c CaseB) vt.Verdict {
 // ---- (c) detector + smart rebalancer evaluate over generated operation streams --------------------------------------
 
 type CaseC struct {
+	// Idle: after the stream, evaluations without any new observation, the clock advanced by these amounts before each
+	IdleMS  []int    `json:"idle_ms,omitempty"`
 	Ops     []int    `json:"ops"`     // 0 read 1 write 2 delete
 	GapsMS  []int    `json:"gaps_ms"` // time between ops (cycled)
 	FileMB  int      `json:"file_mb"`
@@ -506,6 +515,7 @@ func genC(t *rapid.T) CaseC {
 		}
 	}
 	c.GapsMS = rapid.SliceOfN(rapid.SampledFrom([]int{0, 1, 10, 100, 1000, 10000}), 1, 6).Draw(t, "gaps")
+	c.IdleMS = rapid.SliceOfN(rapid.SampledFrom([]int{0, 1, 1000, 30000, 59000, 61000, 120000, 600000}), 0, 4).Draw(t, "idle")
 	return c
 }
 
@@ -521,18 +531,56 @@ func runC(c CaseC) vt.Verdict {
 		allowed[m] = true
 	}
 	sel := rebalancing.NewConfigSelector(rebalancing.WithSafetyConstraints(cons), rebalancing.WithSelectorClock(clk))
-	for i, o := range c.Ops {
-		clk.t = clk.t.Add(time.Duration(c.GapsMS[i%len(c.GapsMS)]) * time.Millisecond)
-		if o < 0 || o > 2 {
-			return vt.Skipped("bad op")
+	type seen struct {
+		t  time.Time
+		op int
+	}
+	var log []seen
+	// fresh: what a detector that was only ever shown the observations still inside the window reports now
+	fresh := func() (rebalancing.WorkloadFeatures, rebalancing.WorkloadType, bool) {
+		now := clk.t
+		w := det.ExtractFeatures().WindowDuration
+		c2 := &fakeClock{}
+		d2 := rebalancing.NewWorkloadDetector(rebalancing.WithClock(c2), rebalancing.WithMinSampleSize(5))
+		defer d2.Close()
+		for _, e := range log {
+			age := now.Sub(e.t)
+			if age == w {
+				return rebalancing.WorkloadFeatures{}, 0, false // exactly on the edge of the window: either reading is fine
+			}
+			if age > w {
+				continue
+			}
+			c2.t = e.t
+			_ = d2.RecordOperation(context.Background(), rebalancing.OperationType(e.op), uint64(c.FileMB)*1024*1024)
 		}
-		if err := det.RecordOperation(context.Background(), rebalancing.OperationType(o), uint64(c.FileMB)*1024*1024); err != nil {
-			return vt.Bad("RecordOperation: %v", err)
-		}
-		if i%17 != 0 && i != len(c.Ops)-1 {
-			continue
+		c2.t = now
+		return d2.ExtractFeatures(), d2.DetectWorkloadType(), true
+	}
+	total := len(c.Ops) + len(c.IdleMS)
+	for i := 0; i < total; i++ {
+		if i < len(c.Ops) {
+			o := c.Ops[i]
+			clk.t = clk.t.Add(time.Duration(c.GapsMS[i%len(c.GapsMS)]) * time.Millisecond)
+			if o < 0 || o > 2 {
+				return vt.Skipped("bad op")
+			}
+			if err := det.RecordOperation(context.Background(), rebalancing.OperationType(o), uint64(c.FileMB)*1024*1024); err != nil {
+				return vt.Bad("RecordOperation: %v", err)
+			}
+			log = append(log, seen{clk.t, o})
+			if i%17 != 0 && i != len(c.Ops)-1 {
+				continue
+			}
+		} else {
+			clk.t = clk.t.Add(time.Duration(c.IdleMS[i-len(c.Ops)]) * time.Millisecond)
 		}
 		f := det.ExtractFeatures()
+		if f2, wt2, ok := fresh(); ok {
+			if wt := det.DetectWorkloadType(); f != f2 || wt != wt2 {
+				return vt.Bad("after %d ops and %d idle evaluations: features %+v / workload %v, a detector shown only the %d observations inside the window reports %+v / %v", len(log), i+1-len(log), f, wt, f2.SampleSize, f2, wt2)
+			}
+		}
 		for name, r := range map[string]float64{"delete": f.DeleteRatio, "write": f.WriteRatio, "read": f.ReadRatio} {
 			if math.IsNaN(r) || r < 0 || r > 1 {
 				return vt.Bad("after %d ops: %s ratio %v outside [0,1]", i+1, name, r)
@@ -563,6 +611,7 @@ func TestProp(t *testing.T) {
 	vt.Run(t, prop,
 		vt.Sub[CaseA]{Prop: prop, Name: "config", Gen: genA, Run: runA, Classify: classifyA}.WithBudget(500, 3000),
 		vt.Sub[CaseB]{Prop: prop, Name: "selector", Gen: genB, Run: runB, Classify: classifyB}.WithBudget(20000, 150000),
+		vt.Sub[CaseD]{Prop: prop, Name: "applied", Gen: genD, Run: runD, Classify: func(c CaseD) (bool, []string) { return len(c.Ops) >= 20, nil }}.WithBudget(150, 1500),
 		vt.Sub[CaseC]{Prop: prop, Name: "detector", Gen: genC, Run: runC, Classify: func(c CaseC) (bool, []string) { return len(c.Ops) >= 20, nil }}.WithBudget(2000, 15000),
 	)
 }
